@@ -125,7 +125,9 @@ def recv (cfg : Cfg) (r : Recip) (ev : Ev) : Recip × Verdict :=
       match ev.echo with
       | .good =>
         match validate cfg r1 ev.piv with
-        | .ok r2 => (r2, .acc)
+        -- rcp_ctx->sliding_window = ~(uint64_t)0;   RFC 8613 B.1.2: this Partial IV is the LOWER edge of the window,
+        -- every lower one counts as received (it may have been, before the restart)
+        | .ok r2 => ({ r2 with win := 2 ^ 64 - 1 }, .acc)
         | .rej r2 => (r2, .rej401)
         | .ub => (r1, .ub)
       | .bad => (r1, .drop)
